@@ -712,4 +712,334 @@ theorem distinctPass_nil (rs : List (List Value)) : distinctPass [] rs = firstRo
   rw [distinctPass_eq]
   apply List.filter_eq_self.mpr; intro x _; rfl
 
+/-! ### key lists -/
+
+abbrev KeyLt (a b : List Value) : Prop := cmpList a b = .lt
+
+theorem keyLt_irrefl (a : List Value) : ¬ KeyLt a a := by
+  unfold KeyLt; rw [cmpList_refl]; simp
+
+theorem keyLt_asymm {a b : List Value} (h : KeyLt a b) : ¬ KeyLt b a := by
+  unfold KeyLt at *
+  rw [cmpList_gt_of_lt h]; simp
+
+/-- strictly ascending lists with the same members are equal -/
+theorem sorted_ext {l1 l2 : List (List Value)} (h1 : l1.Pairwise KeyLt) (h2 : l2.Pairwise KeyLt)
+    (hm : ∀ x, x ∈ l1 ↔ x ∈ l2) : l1 = l2 := by
+  induction l1 generalizing l2 with
+  | nil =>
+    cases l2 with
+    | nil => rfl
+    | cons b u => exact absurd ((hm b).mpr (by simp)) (by simp)
+  | cons a t ih =>
+    cases l2 with
+    | nil => exact absurd ((hm a).mp (by simp)) (by simp)
+    | cons b u =>
+      rw [List.pairwise_cons] at h1 h2
+      have hab : a = b := by
+        have ha := (hm a).mp (by simp)
+        have hb := (hm b).mpr (by simp)
+        rcases List.mem_cons.mp ha with ha | ha
+        · exact ha
+        · rcases List.mem_cons.mp hb with hb | hb
+          · exact hb.symm
+          · exact absurd (h1.1 b hb) (keyLt_asymm (h2.1 a ha))
+      subst hab
+      congr 1
+      apply ih h1.2 h2.2
+      intro x
+      constructor
+      · intro hx
+        rcases List.mem_cons.mp ((hm x).mp (by simp [hx])) with h | h
+        · subst h; exact absurd (h1.1 x hx) (keyLt_irrefl x)
+        · exact h
+      · intro hx
+        rcases List.mem_cons.mp ((hm x).mpr (by simp [hx])) with h | h
+        · subst h; exact absurd (h2.1 x hx) (keyLt_irrefl x)
+        · exact h
+
+theorem mem_insertKey_of_mem {k x : List Value} {ks : List (List Value)} (h : x ∈ ks) : x ∈ insertKey k ks := by
+  induction ks with
+  | nil => simp at h
+  | cons y ys ih =>
+    simp only [insertKey]
+    cases cmpList k y <;> simp only [List.mem_cons] at h ⊢
+    · exact Or.inr h
+    · exact h
+    · rcases h with h | h
+      · exact Or.inl h
+      · exact Or.inr (ih h)
+
+theorem insertKey_cover (k : List Value) (ks : List (List Value)) : ∃ k' ∈ insertKey k ks, cmpList k' k = .eq := by
+  induction ks with
+  | nil => exact ⟨k, by simp [insertKey], cmpList_refl k⟩
+  | cons y ys ih =>
+    simp only [insertKey]
+    cases hc : cmpList k y
+    · exact ⟨k, by simp, cmpList_refl k⟩
+    · exact ⟨y, by simp, cmpList_eq_symm hc⟩
+    · obtain ⟨k', hk', he⟩ := ih
+      exact ⟨k', by simp [hk'], he⟩
+
+theorem foldKeys_sorted (ks acc : List (List Value)) (h : acc.Pairwise KeyLt) :
+    (ks.foldl (fun acc k => insertKey k acc) acc).Pairwise KeyLt := by
+  induction ks generalizing acc with
+  | nil => exact h
+  | cons k ks ih => exact ih _ (insertKey_sorted h)
+
+theorem foldKeys_sub (ks acc : List (List Value)) :
+    ∀ x ∈ ks.foldl (fun acc k => insertKey k acc) acc, x ∈ acc ∨ x ∈ ks := by
+  induction ks generalizing acc with
+  | nil => intro x hx; exact Or.inl hx
+  | cons k ks ih =>
+    intro x hx
+    rcases ih _ x hx with h | h
+    · rcases insertKey_mem h with h | h
+      · exact Or.inr (by simp [h])
+      · exact Or.inl h
+    · exact Or.inr (by simp [h])
+
+theorem foldKeys_keep (ks acc : List (List Value)) : ∀ x ∈ acc, x ∈ ks.foldl (fun acc k => insertKey k acc) acc := by
+  induction ks generalizing acc with
+  | nil => intro x hx; exact hx
+  | cons k ks ih => intro x hx; exact ih _ x (mem_insertKey_of_mem hx)
+
+theorem foldKeys_cover (ks acc : List (List Value)) :
+    ∀ k ∈ ks, ∃ k' ∈ ks.foldl (fun acc k => insertKey k acc) acc, cmpList k' k = .eq := by
+  induction ks generalizing acc with
+  | nil => intro k hk; simp at hk
+  | cons y ys ih =>
+    intro k hk
+    rcases List.mem_cons.mp hk with hk | hk
+    · subst hk
+      obtain ⟨k', hk', he⟩ := insertKey_cover k acc
+      exact ⟨k', foldKeys_keep ys _ k' hk', he⟩
+    · exact ih _ k hk
+
+theorem distinctKeys_sorted (ks : List (List Value)) : (distinctKeys ks).Pairwise KeyLt :=
+  foldKeys_sorted ks [] List.Pairwise.nil
+
+theorem distinctKeys_sub (ks : List (List Value)) : ∀ x ∈ distinctKeys ks, x ∈ ks := by
+  intro x hx
+  rcases foldKeys_sub ks [] x hx with h | h
+  · simp at h
+  · exact h
+
+theorem distinctKeys_cover (ks : List (List Value)) : ∀ k ∈ ks, ∃ k' ∈ distinctKeys ks, cmpList k' k = .eq :=
+  foldKeys_cover ks []
+
+/-- keys that are equal in the value order are identical (holds for keys without REAL and array components) -/
+def KeysExact (ks : List (List Value)) : Prop := ∀ a ∈ ks, ∀ b ∈ ks, cmpList a b = .eq → a = b
+
+theorem distinctKeys_mem_iff {ks : List (List Value)} (hex : KeysExact ks) (k : List Value) :
+    k ∈ distinctKeys ks ↔ k ∈ ks := by
+  constructor
+  · exact distinctKeys_sub ks k
+  · intro hk
+    obtain ⟨k', hk', he⟩ := distinctKeys_cover ks k hk
+    rw [← hex k' (distinctKeys_sub ks k' hk') k hk he]; exact hk'
+
+/-! ### assembling the result half -/
+
+theorem collect_some_mem {α : Type} {l : List (Option α)} {r : List α} (h : collect l = some r) :
+    ∀ o ∈ l, ∃ a, o = some a := by
+  induction l generalizing r with
+  | nil => intro o ho; simp at ho
+  | cons x xs ih =>
+    intro o ho
+    cases x with
+    | none => simp [collect] at h
+    | some a =>
+      obtain ⟨r', hr', _⟩ := collect_eq_some_cons h
+      rcases List.mem_cons.mp ho with ho | ho
+      · exact ⟨a, ho⟩
+      · exact ih hr' o ho
+
+theorem enumFrom_mem_snd {α : Type} (l : List α) (n i : Nat) (x : α) (h : (i, x) ∈ enumFrom n l) : x ∈ l := by
+  induction l generalizing n with
+  | nil => simp [enumFrom] at h
+  | cons y ys ih =>
+    simp only [enumFrom, List.mem_cons, Prod.mk.injEq] at h
+    rcases h with h | h
+    · simp [h.2]
+    · exact List.mem_cons_of_mem _ (ih (n + 1) h)
+
+/-- every non-key slot of a group whose row and HAVING verdict the specification fixes has a fixed value -/
+theorem perGroup_values {O : Oracles} {q : AggStmt} (hwf : StmtWF q) {k : List Value} {g : List Env} {ra : List Value × Bool}
+    (h : perGroup O q (k, g) = some ra) :
+    ∀ kind ∈ slotKinds q, (∀ e c, kind ≠ .groupKey e c) → ∃ r, groupValue O q kind g = some r := by
+  intro kind hkind hnk
+  simp only [perGroup] at h
+  cases hr : row O q k g with
+  | none => simp [hr] at h
+  | some r' =>
+    simp only [hr, Option.bind_some] at h
+    cases ha : accept O q k g with
+    | none => simp [ha] at h
+    | some a =>
+      simp only [slotKinds, List.mem_append, List.mem_map] at hkind
+      rcases hkind with ⟨item, hitem, hik⟩ | ⟨p, hp, hpk⟩
+      · obtain ⟨v, hv⟩ := collect_some_mem hr (cell O q k g item) (List.mem_map.mpr ⟨item, hitem, rfl⟩)
+        rw [cell_nonkey O q k g item (by rw [hik]; exact hnk), hik] at hv
+        cases hg : groupValue O q kind g with
+        | none => simp [hg] at hv
+        | some r => exact ⟨r, rfl⟩
+      · unfold accept at ha
+        cases hh : q.having with
+        | none => rw [hwf.noHaving hh] at hp; simp at hp
+        | some hx =>
+          simp only [hh] at ha
+          split at ha
+          · simp at ha
+          · rename_i gvals hgv
+            obtain ⟨x, hx'⟩ := collect_some_mem hgv _ (List.mem_map.mpr ⟨p, hp, rfl⟩)
+            obtain ⟨id, kd⟩ := p
+            simp only at hx' hpk
+            subst hpk
+            cases hg : groupValue O q kd g with
+            | none => simp [hg] at hx'
+            | some r => exact ⟨r, rfl⟩
+
+theorem rowsOfKey_ne_nil {rows : List (List Value × Env)} {k : List Value} (hk : k ∈ rows.map (·.1)) :
+    rowsOfKey k rows ≠ [] := by
+  obtain ⟨r, hr, hrk⟩ := List.mem_map.mp hk
+  intro he
+  have : r.2 ∈ rowsOfKey k rows := by
+    simp only [rowsOfKey, List.mem_map, List.mem_filter]
+    exact ⟨r, ⟨hr, by simp [sameKey, hrk, cmpList_refl]⟩, rfl⟩
+  rw [he] at this; simp at this
+
+theorem views_of_keys {O : Oracles} {q : AggStmt} (rows : List (List Value × Env))
+    (V : List (List Value × List (Nat × Value)))
+    (h : ∀ p ∈ V, GroupView O q p.2 (rowsOfKey p.1 rows)) :
+    Views O q V ((V.map (·.1)).map (fun k => (k, rowsOfKey k rows))) := by
+  induction V with
+  | nil => exact Views.nil
+  | cons p V ih =>
+    obtain ⟨key, subs⟩ := p
+    simp only [List.map_cons]
+    exact Views.cons (h (key, subs) (by simp)) (ih (fun p hp => h p (by simp [hp])))
+
+theorem aggResult_eq (O : Oracles) (q : AggStmt) (st : AggState) :
+    aggResult O q st =
+      ((publishPercentiles st).vals.foldlM (fun (_ : Unit) (x : List Value × List (Nat × Value)) => do
+          let _ ← rowOf O q x.1 x.2 (enumFrom 0 q.items)
+          pure ()) () : Outcome Unit).bind (fun _ =>
+        (resultRows O q (publishPercentiles st).vals []).bind (fun rows =>
+          .ok (publishPercentiles st, { columns := q.items.map (·.name), rows := rows }))) := rfl
+
+theorem tableOfGroups_eq (O : Oracles) (q : AggStmt) (gs : List (List Value × List Env)) :
+    tableOfGroups O q gs =
+      match collect (gs.map (perGroup O q)) with
+      | none => none
+      | some all =>
+        some (match q.limit with
+          | some n => (if q.distinct then firstRows (keptRows all) else keptRows all).take n
+          | none => if q.distinct then firstRows (keptRows all) else keptRows all) := rfl
+
+/-- no ARRAY_AGG slot of the group starts with NULL -/
+theorem firstNull_of_group {O : Oracles} {q : AggStmt} {g : List Env} (h : arrayAggFirstNull O q g = false)
+    {kind : AggKind} (hk : kind ∈ slotKinds q) : ∀ vs, arguments O q kind g = some vs → firstNull kind vs = false := by
+  intro vs hvs
+  unfold arrayAggFirstNull at h
+  have := List.any_eq_false.mp h kind hk
+  simpa [hvs] using this
+
+/-- the value a slot shows after `publishPercentiles`, for a group of a coupled state -/
+theorem coupled_slot {O : Oracles} {q : AggStmt} (hwf : StmtWF q) {st : AggState} {rows : List (List Value × Env)}
+    (hc : Coupled O q st rows) {key : List Value} (hk : key ∈ rows.map (·.1))
+    (hd15 : arrayAggFirstNull O q (rowsOfKey key rows) = false)
+    {i : Nat} {kind : AggKind} (hslot : (i, kind) ∈ enumFrom 0 (slotKinds q)) {r : Value}
+    (hv : groupValue O q kind (rowsOfKey key rows) = some r) :
+    ((readCell (publishPercentiles st) key i).val).getD (emptyGroupValue kind) = r ∧
+      ∃ vs, arguments O q kind (rowsOfKey key rows) = some vs ∧
+        (readCell (publishPercentiles st) key i).val.isSome = createsEntry kind vs := by
+  have hcell := hc.cells key i kind (by rw [rowSlots_eq hwf]; exact hslot)
+  have := slot_value (rowsOfKey_ne_nil hk) hcell hv (firstNull_of_group hd15 (enumFrom_mem_snd _ _ _ _ hslot))
+  rw [readCell_publish hc.sorted hc.shape.aggsInner]
+  exact this
+
+/-- **the result half of the refinement**: for a state coupled to the rows, `execute_result` (+ LIMIT) yields exactly
+the specification's table — provided the group keys are exact, every group is visible (no D10 group) and no
+ARRAY_AGG starts with NULL (D15) -/
+theorem finalResult_refines {O : Oracles} {q : AggStmt} (hwf : StmtWF q) {st : AggState} {rows : List (List Value × Env)}
+    (hc : Coupled O q st rows) (hex : KeysExact (rows.map (·.1))) {t : List (List Value)}
+    (hspec : tableOfGroups O q (groups rows) = some t)
+    (hvis : ∀ kg ∈ groups rows, groupVisible O q kg.2 = true)
+    (hd15 : ∀ kg ∈ groups rows, arrayAggFirstNull O q kg.2 = false) :
+    finalResult O q { agg := st } = .ok { columns := q.items.map (·.name), rows := t } := by
+  have hs1 := aggSorted_publish hc.sorted
+  have hsh1 := shape_publish hc.shape
+  rw [tableOfGroups_eq] at hspec
+  cases hall : collect ((groups rows).map (perGroup O q)) with
+  | none => simp [hall] at hspec
+  | some all =>
+    simp only [hall, Option.some.injEq] at hspec
+    -- groups of the specification, by key
+    have hgroup : ∀ k ∈ distinctKeys (rows.map (·.1)), (k, rowsOfKey k rows) ∈ groups rows := by
+      intro k hk
+      exact List.mem_map.mpr ⟨k, hk, rfl⟩
+    have hd15k : ∀ k ∈ rows.map (·.1), arrayAggFirstNull O q (rowsOfKey k rows) = false := by
+      intro k hk
+      exact hd15 _ (hgroup k ((distinctKeys_mem_iff hex k).mpr hk))
+    -- the keys of `group_values` are the distinct keys
+    have hkeys : (publishPercentiles st).vals.map (·.1) = distinctKeys (rows.map (·.1)) := by
+      apply sorted_ext hs1.vals (distinctKeys_sorted _)
+      intro x
+      constructor
+      · intro hx
+        obtain ⟨p, hp, hpx⟩ := List.mem_map.mp hx
+        exact (distinctKeys_mem_iff hex x).mpr (by rw [← hpx]; exact hsh1.valsKeys p hp)
+      · intro hx
+        have hxk : x ∈ rows.map (·.1) := distinctKeys_sub _ x hx
+        have hmem := hgroup x hx
+        have hv := hvis _ hmem
+        simp only [groupVisible, List.any_eq_true] at hv
+        obtain ⟨kind, hkind, hce⟩ := hv
+        cases hargs : arguments O q kind (rowsOfKey x rows) with
+        | none => simp [hargs] at hce
+        | some vs =>
+          simp only [hargs] at hce
+          have hnk : ∀ e c, kind ≠ .groupKey e c := by
+            intro e c he; subst he; simp [createsEntry] at hce
+          obtain ⟨ra, hra⟩ := collect_some_mem hall _ (List.mem_map.mpr ⟨_, hmem, rfl⟩)
+          obtain ⟨r, hr⟩ := perGroup_values hwf hra kind hkind hnk
+          obtain ⟨i, hi⟩ := enumFrom_exists (slotKinds q) 0 kind hkind
+          obtain ⟨_, vs', hvs', hsome⟩ := coupled_slot hwf hc hxk (hd15k x hxk) hi hr
+          rw [hargs] at hvs'
+          simp only [Option.some.injEq] at hvs'
+          subst hvs'
+          rw [hce] at hsome
+          -- the cell has a value, so the group is listed
+          simp only [readCell] at hsome
+          cases hl : gmLookup (publishPercentiles st).vals x i with
+          | none => simp [hl] at hsome
+          | some v =>
+            simp only [gmLookup, Option.bind] at hl
+            cases hg : gmGet (publishPercentiles st).vals x with
+            | none => simp [hg] at hl
+            | some subs =>
+              obtain ⟨key, hkm, hke⟩ := gmGet_some_mem hg
+              have : key = x := hex key (hsh1.valsKeys _ hkm) x hxk hke
+              subst this
+              exact List.mem_map.mpr ⟨_, hkm, rfl⟩
+    -- every listed group shows the specification's values
+    have hviews : Views O q (publishPercentiles st).vals (groups rows) := by
+      have := views_of_keys (O := O) (q := q) rows (publishPercentiles st).vals (by
+        intro p hp
+        obtain ⟨key, subs⟩ := p
+        have hk : key ∈ rows.map (·.1) := hsh1.valsKeys _ hp
+        refine ⟨?_⟩
+        intro i kind r hslot hv
+        have := (coupled_slot hwf hc hk (hd15k key hk) hslot hv).1
+        simp only [readCell, gmLookup, gmGet_of_mem hs1.vals hp, Option.bind] at this
+        exact this)
+      rw [hkeys] at this
+      exact this
+    unfold finalResult
+    rw [aggResult_eq, checkRows_view hviews hall, resultRows_view hviews [] hall]
+    simp only [Outcome.bind, bind, pure]
+    rw [← hspec]
+    cases q.distinct <;> cases q.limit <;> simp [distinctPass_nil]
+
 end Sqlgrep
